@@ -37,6 +37,8 @@ def gen_cases(rng, spec, n):
             c = kgen.gen_generic(rng, i, base, malformed=malformed)
         elif base == 'res':
             c = kgen.gen_resource(rng, i)
+        elif base == 'victim':
+            c = kgen.gen_intr(rng, i)
         elif base == 'store':
             c = kgen.gen_store(rng, i, malformed=malformed)
         else:
@@ -72,9 +74,10 @@ def run_kernel(ctx, prop, spec, n_quick, n_thorough, oracles=(), nontrivial=None
         cases = corpus_cases(prop) + gen_cases(rng, spec, n)
     for i, c in enumerate(cases):
         c.cid = f'{i}'
-    impl = {}
+    impl, runners = {}, {}
     for c in cases:
-        impl[c.cid] = kscript.run_case(c)
+        runners[c.cid] = kscript.Runner(c)
+        impl[c.cid] = runners[c.cid].run()
     model = {}
     CH = 2000
     for i in range(0, len(cases), CH):
@@ -101,7 +104,7 @@ def run_kernel(ctx, prop, spec, n_quick, n_thorough, oracles=(), nontrivial=None
             disagreements.append({'case': c.to_json(), 'detail': f'line {d[0]}: impl `{d[1]}` model `{d[2]}`' if d else 'length',
                                   'impl': a[:400], 'model': (b or [])[:400]})
         for orc in oracles:
-            for f in orc(c, a) or []:
+            for f in orc(c, a, runners[c.cid]) or []:
                 f.setdefault('case', c.to_json())
                 f.setdefault('trace', a[:400])
                 oracle_failures.append(f)
@@ -130,9 +133,52 @@ def default_nontrivial(case, lines):
 
 # ---- model-free oracles over the implementation trace -------------------------------------------
 
-def oracle_time_monotone(case, lines):
+def oracle_time_monotone(case, lines, runner=None):
     ts = [unbits(t) for t in times_of(lines)]
     for a, b in zip(ts, ts[1:]):
         if b < a:
             return [{'what': f'simulated time decreased from {a} to {b}', 'signature': 'time-decreased'}]
     return []
+
+
+# ---- C03: split plans against the uninterrupted run (pure implementation oracle) -------------------
+
+import math
+
+
+def observable(lines):
+    """what process bodies and probe callbacks can see"""
+    return [l for l in lines if l[0] in 'PB']
+
+
+def oracle_split(case, lines, runner=None):
+    if case.mode != 'plan':
+        return []
+    base = Case.from_json({**case.to_json(), 'plan': []})
+    r0 = kscript.Runner(base)
+    ref = r0.run()
+    if any(l.startswith('X ') for l in ref):
+        return []          # the uninterrupted run raises: what happens after an exception is outside the statement
+    r1 = kscript.Runner(case)
+    got = r1.run()
+    fails = []
+    # an exception other than the refusals of run(until<=now) / step() on an empty schedule is not expected either
+    bad = [l for l in got if l.startswith('X ') and not l.startswith('X ValueError') and not l.startswith('X EmptySchedule')
+           and not l.startswith('X RuntimeError')]
+    if observable(got) != observable(ref):
+        a, b = observable(ref), observable(got)
+        i = next((i for i in range(max(len(a), len(b))) if i >= len(a) or i >= len(b) or a[i] != b[i]), 0)
+        fails.append({'what': f'split run differs from the uninterrupted run at observation {i}: '
+                              f'uninterrupted `{a[i] if i < len(a) else "<end>"}` split `{b[i] if i < len(b) else "<end>"}` '
+                              f'(plan {case.plan})', 'signature': 'split-trace-differs'})
+    for n in r1.notes:
+        if n[0] == 'until-time':
+            _, t, t0, now = n
+            if not (now == t or now == math.nextafter(t, math.inf) or now == math.nextafter(t, -math.inf)):
+                fails.append({'what': f'run(until={t}) returned with now={now}', 'signature': 'until-time-now'})
+        if n[0] == 'until-event':
+            if not n[1]:
+                fails.append({'what': 'run(until=event) returned before the event was processed', 'signature': 'until-event-unprocessed'})
+            elif n[2] and not n[3]:
+                fails.append({'what': 'run(until=event) did not return the event value', 'signature': 'until-event-value'})
+    return fails
